@@ -83,6 +83,7 @@ type Term struct {
 	c    uint64
 	name string
 	defd bool // emitted to solver (per solver instance; one solver per table)
+	fp   bool // contains floating-point sub-terms
 }
 
 func (t *Term) IsConst() bool { return t.op == OConst }
@@ -123,6 +124,12 @@ func (tt *TermTable) mk(t *Term) *Term {
 	}
 	t.id = tt.next
 	tt.next++
+	t.fp = t.kind == KFP || t.kind == KF32
+	for _, a := range t.a {
+		if a.fp {
+			t.fp = true
+		}
+	}
 	tt.tab[k] = t
 	return t
 }
